@@ -136,7 +136,7 @@ UPDATES = {
 
 CAP_MS, CAP_MS_CISCO = 68, 131
 OPENS = {
-    'rr-rfc': wire.encode_open(65006, 180, '9.9.9.6', [wire.cap_mp(1, 1), wire.cap_asn4(65006), (wire.CAP_RR, b'')]),
+    'rr-rfc': wire.encode_open(65006, 180, '9.9.9.6', [wire.cap_mp(1, 1), wire.cap_asn4(65006), (wire.CAP_RR, b''), (CAP_MS, b'\x00')]),
     'rr-cisco': wire.encode_open(65006, 180, '9.9.9.6', [wire.cap_mp(1, 1), wire.cap_asn4(65006), (wire.CAP_RR_CISCO, b'')]),
     'ms-cisco': wire.encode_open(65006, 180, '9.9.9.6', [wire.cap_mp(1, 1), wire.cap_asn4(65006), (wire.CAP_RR, b''),
                                                         (CAP_MS_CISCO, b'\x00')]),
@@ -190,7 +190,8 @@ class _Stats(collections.defaultdict):
         collections.defaultdict.__init__(self, int)
 
 
-def world():
+def world(only=None):
+    """only: build just that session (the fresh 'alone' interpreters), default all of them."""
     global _W
     if _W is not None:
         return _W
@@ -206,8 +207,10 @@ def world():
     from exabgp.version import text_v4
 
     w = dict(Message=Message, Notify=Notify, Attribute=Attribute, UNSET=Negotiated.UNSET, PeerContext=PeerContext,
-             UpdateHandler=UpdateHandler, sessions={}, order=list(SESSIONS))
+             UpdateHandler=UpdateHandler, sessions={}, order=[n for n in SESSIONS if only in (None, n)])
     for name, s in SESSIONS.items():
+        if name not in w['order']:
+            continue
         _cfg, nb = exa.neighbor_from_text(CONFIG % s)
         neg = exa.negotiated_for(nb, exa.peer_open_body(s['peer_as'], s['families'], asn4=s['asn4'], addpath=s['addpath'],
                                                         ext_msg=s['ext_msg']), direction_out=False)
@@ -218,8 +221,9 @@ def world():
         if not nb.rib.incoming.cache:
             raise core.HarnessError('adj-rib-in is not enabled')
         w['sessions'][name] = dict(neighbor=nb, neg=neg, cfg=_cfg)
-    _cfg, nb = exa.neighbor_from_text(CONFIG % OPEN_NEIGHBOR)
-    w['sessions'][OPEN_SESSION] = dict(neighbor=nb, neg=Negotiated.UNSET, cfg=_cfg)
+    if only in (None, OPEN_SESSION):
+        _cfg, nb = exa.neighbor_from_text(CONFIG % OPEN_NEIGHBOR)
+        w['sessions'][OPEN_SESSION] = dict(neighbor=nb, neg=Negotiated.UNSET, cfg=_cfg)
     w['json'] = Response.JSON(json_version)
     w['text'] = Response.V4.Text(text_v4)
     w['ctx'] = {}
@@ -374,7 +378,8 @@ def set_caching(w, mode: str) -> None:
 
 _SKIP_MODULES = ('exabgp.logger', 'exabgp.environment', 'exabgp.vendoring', 'exabgp.debug')
 # the API envelope counter: legitimately history dependent and canonicalised out of every observation
-_NOT_CANON = ('exabgp.reactor.api.response.json:JSON._count',)
+# (and RIB._cache: the Adj-RIB-In tables enter canon through rib_snapshot(), which is cheaper and complete)
+_NOT_CANON = ('exabgp.reactor.api.response.json:JSON._count', 'exabgp.rib:RIB._cache')
 _SCALARS = (int, str, bytes, bool, float, type(None), tuple, frozenset)
 _MAXD = 4
 
@@ -394,10 +399,12 @@ def _r(v, depth, seen):
         return str(v)
     if isinstance(v, (bytes, bytearray, memoryview)):
         return 'x' + bytes(v).hex()
-    if inspect.isclass(v):
+    if isinstance(v, type):
         return f'<class {v.__module__}.{v.__qualname__}>'
-    if inspect.isroutine(v) or isinstance(v, (property, classmethod, staticmethod)):
-        return f'<fn {getattr(v, "__qualname__", type(v).__name__)}>'
+    if not isinstance(v, (dict, list, tuple, set, frozenset)) and not type(v).__module__.startswith('exabgp'):
+        if inspect.isroutine(v) or isinstance(v, (property, classmethod, staticmethod)):
+            return f'<fn {getattr(v, "__qualname__", type(v).__name__)}>'
+        return f'<{type(v).__module__}.{type(v).__qualname__}>'
     if id(v) in seen:
         return '<cycle>'
     if depth <= 0:
@@ -591,6 +598,9 @@ def alone_fresh(mode: str, letter) -> dict:
     """The observation of one letter in a genuinely fresh interpreter that decodes nothing else."""
     env = dict(os.environ)
     env['PYTHONHASHSEED'] = '0'
+    # bytecode of the tree under test is kept outside it (nothing is ever written below /repo)
+    env.pop('PYTHONDONTWRITEBYTECODE', None)
+    env['PYTHONPYCACHEPREFIX'] = '/tmp/verif-c19-pycache'
     p = subprocess.run([core.PYTHON, '-m', 'vt.checks.c19', '--alone', mode, letter[0], letter[1]], cwd=core.ROOT, env=env,
                        capture_output=True, text=True, timeout=300)
     if p.returncode != 0:
@@ -603,7 +613,7 @@ def alone_fresh(mode: str, letter) -> dict:
 
 def _alone_here(mode: str, letter) -> dict:
     """Runs in the fresh subprocess (and nowhere else)."""
-    w = world()
+    w = world(only=letter[0])
     set_caching(w, mode)
     d = step(w, tuple(letter))
     return {'obs': list(d.obs), 'rib': rib_snapshot(w)}
@@ -700,20 +710,24 @@ class Harness:
         return False
 
     def evaluate(self, mode: str, seq, intervene=None, want_state: bool = False):
-        """Run seq from a reset state.  Returns (mismatches, info).  intervene = (k, keys): restore those roots to
-        their baseline just before step k (k == len(seq): before the final re-rendering)."""
+        """Run seq from a reset state.  Returns (mismatches, info).
+        intervene = (k, keys, frm): just before step k (k == len(seq): before the final re-rendering) put the roots `keys`
+        back to their baseline (frm None) or to what they were right after step frm."""
         w = self.w
         self.reset(mode)
         decs = []
         model = {name: {} for name in w['order']}
         n = len(seq)
         collide = False
+        capture = None
         for i, letter in enumerate(seq):
             if intervene is not None and intervene[0] == i:
-                self.snap.restore(intervene[1])
+                (capture if intervene[2] is not None else self.snap).restore(intervene[1])
             if i == n - 1:
                 collide = self.collides(seq)
             decs.append(step(w, letter))
+            if intervene is not None and intervene[2] == i:
+                capture = Snapshot({k: self.snap.roots[k] for k in self.hot})
             if letter[0] != OPEN_SESSION:
                 al = self.alone_for(mode, letter)
                 tab = model[letter[0]]
@@ -728,16 +742,14 @@ class Harness:
             fields = [OBS_FIELDS[k] for k in range(len(OBS_FIELDS)) if last.obs[k] != want[k]]
             mism.append(('decode', n - 1, fields, last.obs, want))
         ribs = rib_snapshot(w)
-        expect = {name: sorted(tab.values()) for name, tab in model.items()}
-        ribs_t = {name: [tuple(r) for r in rows] for name, rows in ribs.items()}
-        if ribs_t != expect:
-            bad = [name for name in w['order'] if ribs_t[name] != expect[name]]
-            mism.append(('rib', n - 1, bad, {b: ribs_t[b] for b in bad}, {b: expect[b] for b in bad}))
+        bad = [name for name in w['order'] if [tuple(r) for r in ribs[name]] != sorted(model[name].values())]
+        if bad:
+            mism.append(('rib', n - 1, bad, {b: ribs[b] for b in bad}, {b: sorted(model[b].values()) for b in bad}))
         info = {'collide': collide, 'outcome': core.digest(list(last.obs))}
         if want_state:
             info['state'] = core.digest([self.snap.canon(self.canon_keys), ribs])
         if intervene is not None and intervene[0] == n:
-            self.snap.restore(intervene[1])
+            (capture if intervene[2] is not None else self.snap).restore(intervene[1])
         for i, d in enumerate(decs):
             if d.kind == 'none':
                 continue
@@ -792,56 +804,49 @@ class Harness:
             self.memo[key] = got
         return got
 
+    def _attribute(self, mode, seq, kind, pos) -> str:
+        """Which process-wide state carries the dependency: put one hot root back (to the baseline just before the victim step for
+        a decode/rib mismatch; to what it was when the object was decoded, just before the re-rendering, for a mutated object)
+        and see whether the mismatch goes away."""
+        n = len(seq)
+        if n == 1:
+            return 'no-history'
+        at, frm = (n, pos) if kind == 'mutated' else (n - 1, None)
+        resp = [k for k in self.hot if self._has(mode, seq, kind, pos, intervene=(at, [k], frm)) is None]
+        if not resp:
+            if self._has(mode, seq, kind, pos, intervene=(at, list(self.hot), frm)) is None:
+                return 'hot-state-combined'
+            return 'state-outside-scan'
+        if set(resp) <= set(ATTR_CACHE_KEYS):
+            return 'attr-cache'
+        return '+'.join(k.split(':', 1)[1] for k in resp)
+
     def _classify_minimal(self, mode, seq, kind, pos):
         m = self._has(mode, seq, kind, pos)
         if m is None:
             raise core.HarnessError(f'mismatch {kind}@{pos} of {seq} does not repeat in the same process')
-        n = len(seq)
-        # which process-wide state: restore one root just before the victim step (or before the re-rendering)
-        at = n if kind == 'mutated' else n - 1
-        resp = [k for k in self.hot if n > 1 and self._has(mode, seq, kind, pos, intervene=(at, [k])) is None]
-        if not resp and n > 1:
-            state = 'hot-state-combined' if self._has(mode, seq, kind, pos, intervene=(at, list(self.hot))) is None else 'state-outside-scan'
-        elif not resp:
-            state = 'no-history'
-        elif set(resp) <= set(ATTR_CACHE_KEYS):
-            state = 'attr-cache'
-        else:
-            state = '+'.join(k.split(':', 1)[1] for k in resp)
-        # which sessions
-        victim = seq[pos] if kind == 'mutated' else seq[-1]
-        culprit = seq[-1] if kind == 'mutated' else seq[0]
-        relation = 'single-message'
-        if n > 1:
-            cs = self._narrow(mode, seq, kind, pos, victim, culprit)
-            relation = _relation(cs, victim[0])
+        state = self._attribute(mode, seq, kind, pos)
         what = _what(kind, m)
+        # the closest pair of sessions (in negotiated parameters) on which the same two messages show the same thing
+        if len(seq) == 2 and seq[0][0] != seq[1][0] and OPEN_SESSION not in (seq[0][0], seq[1][0]):
+            cur = len(_param_diff(seq[0][0], seq[1][0]))
+            pairs = sorted(((len(_param_diff(a, b)), a, b) for a in SESSIONS for b in SESSIONS if a != b))
+            for dist, a, b in pairs:
+                if dist >= cur:
+                    break
+                cand = [(a, seq[0][1]), (b, seq[1][1])]
+                m2 = self._has(mode, cand, kind, pos)
+                if m2 is not None and _what(kind, m2) == what and self._attribute(mode, cand, kind, pos) == state:
+                    seq, m = cand, m2
+                    break
+        sessions = []
+        for sname, _m in seq:
+            if sname not in sessions:
+                sessions.append(sname)
+        relation = _relation(sessions)
         sig = f'{kind}:{state}:{relation}:{what}'
         text = _describe(mode, seq, kind, pos, m, state)
         return sig, text, {'caching': mode, 'seq': [list(x) for x in seq], 'kind': kind, 'pos': pos}
-
-    def _narrow(self, mode, seq, kind, pos, victim, culprit):
-        """The culprit session closest (in negotiated parameters) to the victim's that still shows the mismatch."""
-        cs, vs = culprit[0], victim[0]
-        if cs == vs or OPEN_SESSION in (cs, vs) or len(seq) != 2:
-            return cs
-        ci = len(seq) - 1 if kind == 'mutated' else 0
-        best = cs
-        changed = True
-        while changed:
-            changed = False
-            cur = _param_diff(best, vs)
-            for s2 in SESSIONS:
-                if s2 in (vs, best):
-                    continue
-                d2 = _param_diff(s2, vs)
-                if d2 < cur:
-                    cand = list(seq)
-                    cand[ci] = (s2, culprit[1])
-                    if self._has(mode, cand, kind, pos):
-                        best, changed = s2, True
-                        break
-        return best
 
 
 def _param_diff(a: str, b: str) -> frozenset:
@@ -849,15 +854,16 @@ def _param_diff(a: str, b: str) -> frozenset:
     return frozenset(k for k in pa if pa[k] != pb.get(k))
 
 
-def _relation(cs: str, vs: str) -> str:
-    if cs == OPEN_SESSION and vs == OPEN_SESSION:
-        return 'open-open'
-    if OPEN_SESSION in (cs, vs):
+def _relation(sessions) -> str:
+    if len(sessions) == 1:
+        return 'open-open' if sessions[0] == OPEN_SESSION else 'session-same'
+    if OPEN_SESSION in sessions:
         return 'open-update'
-    if cs == vs:
-        return 'session-same'
-    d = sorted(_param_diff(cs, vs))
-    return 'session-' + '+'.join(d) + '-mismatch' if d else 'session-twin'
+    d = set()
+    for a in sessions:
+        for b in sessions:
+            d |= _param_diff(a, b)
+    return 'session-' + '+'.join(sorted(d)) + '-mismatch' if d else 'session-twin'
 
 
 def _what(kind, m) -> str:
@@ -1067,7 +1073,7 @@ def run(ctx: core.Ctx) -> None:
     for mode, letter in jobs:
         here = H.alone_inprocess(mode, letter)
         there = table[(mode, letter)]
-        if here['obs'] != there['obs'] or here['rib'] != there['rib']:
+        if here['obs'] != there['obs'] or {k: v for k, v in here['rib'].items() if v} != {k: v for k, v in there['rib'].items() if v}:
             raise core.HarnessError(f'in-process reset is not equivalent to a fresh interpreter for {mode} {letter}: '
                                     f'{_short(here, 600)} vs {_short(there, 600)}')
         ctx.add_to_set('alone_outcomes', core.digest(there['obs']))
@@ -1080,7 +1086,7 @@ def run(ctx: core.Ctx) -> None:
         for mode in CACHING:
             for length in range(1, full[mode] + 1):
                 total = NLET ** length
-                size = max(1, min(4000, total // 64 + 1))
+                size = max(300, min(4000, total // 64 + 1))
                 tasks += [(mode, length, lo, min(total, lo + size)) for lo in range(0, total, size)]
         for part in pool.imap(_chunk, tasks):
             part.merge_into(ctx)
